@@ -124,10 +124,21 @@ private:
     bool operator!=(const marked_idx& other) const noexcept { return this->_val != other._val; }
 
   private:
-    static constexpr unsigned bits = 16;
+    // the index shares a 64-bit word with the version tag; every index in [0, k * num_segments) must fit into `bits`
+    static constexpr unsigned bits = 32;
     static constexpr uint64_t val_mask = (static_cast<uint64_t>(1) << bits) - 1;
     uint64_t _val = 0;
+
+  public:
+    static constexpr uint64_t max_size = val_mask;
   };
+
+  static uint64_t checked_queue_size(uint64_t k, uint64_t num_segments) {
+    if (k != 0 && num_segments > marked_idx::max_size / k) {
+      throw std::invalid_argument("k * num_segments must be less than 2^32");
+    }
+    return k * num_segments;
+  }
 
   template <bool Empty>
   bool find_index(uint64_t start_index, uint64_t& index, marked_value& old);
@@ -151,11 +162,11 @@ private:
 
 template <class T, class... Policies>
 kirsch_bounded_kfifo_queue<T, Policies...>::kirsch_bounded_kfifo_queue(uint64_t k, uint64_t num_segments) :
-    _queue_size(k * num_segments),
+    _queue_size(checked_queue_size(k, num_segments)),
     _k(k),
     _head(),
     _tail(),
-    _queue(new entry[k * num_segments]()) {}
+    _queue(new entry[_queue_size]()) {}
 
 template <class T, class... Policies>
 kirsch_bounded_kfifo_queue<T, Policies...>::~kirsch_bounded_kfifo_queue() {
